@@ -672,7 +672,8 @@ func runC14(c *Ctx) {
 	}
 
 	// ---- R6 ----
-	c.c14Goroutines(loopFn, copiers)
+	readLoopFn, _ := c.connReadLoop(loopFn)
+	c.c14Goroutines(readLoopFn, copiers)
 
 	// ---- R7: only when the connection is gone ----
 	// (a) the notifier is called only where termination is certain: on the loop's exit chain, or after a call
